@@ -15,12 +15,14 @@ import (
 	"testing"
 	"time"
 
+	"cosmossdk.io/collections"
 	sdkmath "cosmossdk.io/math"
 	cmtproto "github.com/cometbft/cometbft/proto/tendermint/types"
 	codectypes "github.com/cosmos/cosmos-sdk/codec/types"
 	sdk "github.com/cosmos/cosmos-sdk/types"
 	authtypes "github.com/cosmos/cosmos-sdk/x/auth/types"
 	banktypes "github.com/cosmos/cosmos-sdk/x/bank/types"
+	crisistypes "github.com/cosmos/cosmos-sdk/x/crisis/types"
 	govtypes "github.com/cosmos/cosmos-sdk/x/gov/types"
 	govv1 "github.com/cosmos/cosmos-sdk/x/gov/types/v1"
 	transfertypes "github.com/cosmos/ibc-go/v8/modules/apps/transfer/types"
@@ -802,7 +804,7 @@ func (e *env) ibc(out *hx.Out, sc string, core bool) {
 // ---------------------------------------------------------------------------------------------------------
 // boundary 3: passed proposal whose message fails
 
-var govFailKinds = []string{"overdrawn", "evmrevert", "evmstorerevert", "evminvalid", "evmoog", "nocontract"}
+var govFailKinds = []string{"overdrawn", "evmrevert", "evmstorerevert", "evminvalid", "evmoog", "nocontract", "panic"}
 
 func (e *env) runGov(out *hx.Out) {
 	n := 1 + e.rng.Intn(4)
@@ -828,6 +830,7 @@ func (e *env) runGov(out *hx.Out) {
 func (e *env) gov(out *hx.Out, n, failIdx int, failKind string) {
 	s := e.s
 	govAcc := authtypes.NewModuleAddress(govtypes.ModuleName)
+	lastReason := ""
 	build := func(ctx sdk.Context, msgs []sdk.Msg) (kvDump, govv1.ProposalStatus, bool) {
 		gk := s.App.GovKeeper
 		proposer := sdk.AccAddress(s.ValAddr[0])
@@ -869,6 +872,7 @@ func (e *env) gov(out *hx.Out, n, failIdx int, failKind string) {
 		if err != nil {
 			return nil, 0, false
 		}
+		lastReason = p3.FailedReason
 		d := dumpKV(ctx, e.keys)
 		return d, p3.Status, true
 	}
@@ -881,7 +885,11 @@ func (e *env) gov(out *hx.Out, n, failIdx int, failKind string) {
 			if track {
 				recipients = append(recipients, to)
 			}
-			return &banktypes.MsgSend{FromAddress: govAcc.String(), ToAddress: to.String(), Amount: sdk.NewCoins(sdk.NewCoin(fxtypes.DefaultDenom, sdkmath.NewInt(amt)))}
+			a := sdkmath.NewInt(amt)
+			if !track {
+				a = sdkmath.NewIntWithDecimal(1, 40) // overdrawn whatever the gov account holds
+			}
+			return &banktypes.MsgSend{FromAddress: govAcc.String(), ToAddress: to.String(), Amount: sdk.NewCoins(sdk.NewCoin(fxtypes.DefaultDenom, a))}
 		}
 		call := func(code []byte) sdk.Msg {
 			target := e.randAddr()
@@ -917,6 +925,20 @@ func (e *env) gov(out *hx.Out, n, failIdx int, failKind string) {
 				msgsA = append(msgsA, call(codeStoreLoop))
 			case "nocontract":
 				msgsA = append(msgsA, call(nil))
+			case "panic":
+				// MsgVerifyInvariant pays the constant fee (a write) and then PANICS when the invariant is broken: a deposit
+				// record larger than the gov account's balance breaks gov/module-account
+				fee, err := s.App.CrisisKeeper.ConstantFee.Get(ctx)
+				if err != nil {
+					panic(err)
+				}
+				s.MintToken(govAcc, fee)
+				ghost := sdk.AccAddress(e.randAddr().Bytes())
+				huge := sdk.NewCoins(sdk.NewCoin(fxtypes.DefaultDenom, sdkmath.NewIntWithDecimal(1, 40)))
+				if err := s.App.GovKeeper.Keeper.Deposits.Set(ctx, collections.Join(uint64(1<<40), ghost), govv1.Deposit{ProposalId: 1 << 40, Depositor: ghost.String(), Amount: huge}); err != nil {
+					panic(err)
+				}
+				msgsA = append(msgsA, &crisistypes.MsgVerifyInvariant{Sender: govAcc.String(), InvariantModuleName: govtypes.ModuleName, InvariantRoute: "module-account"})
 			}
 		}
 		actx, _ := ctx.CacheContext()
@@ -924,6 +946,7 @@ func (e *env) gov(out *hx.Out, n, failIdx int, failKind string) {
 		saved := s.Ctx
 		s.Ctx = actx
 		da, sa, okA := build(actx, msgsA)
+		reasonA := lastReason
 		s.Ctx = bctx
 		db, sb, okB := build(bctx, []sdk.Msg{send(1_000_000_000_000, false)})
 		s.Ctx = saved
@@ -965,7 +988,11 @@ func (e *env) gov(out *hx.Out, n, failIdx int, failKind string) {
 		if sa == govv1.StatusFailed || sa == govv1.StatusPassed || sa == govv1.StatusRejected {
 			stored = 1
 		}
-		out.Emit(fmt.Sprintf("pgov %d %s err", n, f), fmt.Sprintf("flow=nil status=%s stored=%d paid=%d", status, stored, paid))
+		pk := "err"
+		if failKind == "panic" {
+			pk = "panic"
+		}
+		out.Emit(fmt.Sprintf("pgov %d %s %s", n, f, pk), fmt.Sprintf("flow=nil status=%s stored=%d paid=%d", status, stored, paid))
 		pos := "none"
 		if failIdx >= 0 {
 			pos = map[bool]string{true: "first", false: "middle"}[failIdx == 0]
@@ -976,6 +1003,11 @@ func (e *env) gov(out *hx.Out, n, failIdx int, failKind string) {
 				pos = "only"
 			}
 			out.Count("gov:kind:" + failKind)
+			if strings.Contains(reasonA, "PANICKED") {
+				out.Count("gov:recovered-panic")
+			} else if failKind == "panic" {
+				out.Violate("gov: harness scenario panic: the message did not panic: " + firstLine(reasonA))
+			}
 		}
 		out.Count("gov:" + pos)
 		out.Nontrivial(fmt.Sprintf("gov|n=%d|fail=%s|%s", n, pos, failKind))
